@@ -44,3 +44,73 @@ pub fn labels(s: &Sentence) -> Vec<u8> {
 pub fn flat_tags(s: &Sentence) -> Vec<Option<String>> {
     s.tags().iter().map(|t| t.as_ref().map(|c| c.to_string())).collect()
 }
+
+/// Everything observable on a sentence through the public API (no predictor involved).
+#[derive(Clone, Debug, PartialEq, Eq, serde::Serialize)]
+pub struct Obs {
+    pub text: String,
+    pub char_types: Vec<u8>,
+    pub labels: Vec<u8>,
+    pub n_tags: usize,
+    pub tags: Vec<Option<String>>,
+    pub scores: Vec<i32>,
+    pub tokens: Vec<(usize, usize, String, Vec<Option<String>>)>,
+    pub tokenized: String,
+    pub partial: String,
+}
+
+/// Runs every accessor, both writers and the token iterator. Panics propagate to the caller
+/// (the engine turns them into failures).
+pub fn observe(s: &Sentence) -> Obs {
+    let text = s.as_raw_text().to_string();
+    let n = text.chars().count();
+    let mut tokens = vec![];
+    for (k, t) in s.iter_tokens().enumerate() {
+        assert!(k <= n, "token iterator does not terminate");
+        tokens.push((
+            t.start(),
+            t.end(),
+            t.surface().to_string(),
+            t.tags().iter().map(|x| x.as_ref().map(|c| c.to_string())).collect(),
+        ));
+    }
+    let mut tokenized = String::from("stale");
+    s.write_tokenized_text(&mut tokenized);
+    assert!(std::str::from_utf8(tokenized.as_bytes()).is_ok(), "tokenized writer produced invalid UTF-8");
+    let mut partial = String::from("stale");
+    s.write_partial_annotation_text(&mut partial);
+    Obs {
+        text,
+        char_types: s.char_types().to_vec(),
+        labels: labels(s),
+        n_tags: s.n_tags(),
+        tags: flat_tags(s),
+        scores: s.boundary_scores().to_vec(),
+        tokens,
+        tokenized,
+        partial,
+    }
+}
+
+/// Structural consistency of an observation with its own text.
+pub fn check_consistent(o: &Obs) -> Result<(), String> {
+    let cs: Vec<char> = o.text.chars().collect();
+    if cs.is_empty() {
+        return Err("empty raw text".into());
+    }
+    if o.char_types != oracle::types_of(&cs) {
+        return Err(format!("char_types {:?} do not describe text {:?}", o.char_types, o.text));
+    }
+    if o.labels.len() != cs.len() - 1 {
+        return Err(format!("{} labels for {} characters", o.labels.len(), cs.len()));
+    }
+    if o.tags.len() != cs.len() * o.n_tags {
+        return Err(format!(
+            "tags.len() = {} but chars x n_tags = {} x {}",
+            o.tags.len(),
+            cs.len(),
+            o.n_tags
+        ));
+    }
+    Ok(())
+}
